@@ -243,3 +243,41 @@ def rule_nondet(report, run, label, clause=None):
         report.violation("R-NONDET", where_of(e), f"{run.cls.name}.{run.entry.name}: call of {e.what}", None, clause)
     if not seen:
         report.ok("R-NONDET", run.entry, label, None, clause)
+
+
+def reachable_regions(v, heap, depth=8, path="result", seen=None, out=None):
+    """[(region, access path)] of every MUTABLE value reachable from v through fields, elements and
+    instance attributes on the abstract heap"""
+    seen = set() if seen is None else seen
+    out = [] if out is None else out
+    if v is None or depth < 0 or id(v) in seen:
+        return out
+    seen.add(id(v))
+    if v.kinds & {"obj", "dict", "list", "set", "top"}:
+        for r in v.regions:
+            out.append((r, path))
+    if v.fields:
+        for k, f in v.fields.items():
+            reachable_regions(f, heap, depth - 1, f"{path}.{k}" if isinstance(k, str) else f"{path}[{k}]", seen, out)
+    if v.elem is not None:
+        reachable_regions(v.elem, heap, depth - 1, f"{path}[*]", seen, out)
+    if v.oid is not None and v.oid in heap:
+        for a, f in heap[v.oid].items():
+            reachable_regions(f, heap, depth - 1, f"{path}.{a}", seen, out)
+    return out
+
+
+def rule_result_alias(report, run, label, clause=None):
+    """R-ALIAS: the value an entry point returns shares no mutable object with module- or class-level
+    state (two results would otherwise share it: editing one changes the other and every later one)."""
+    hits = {}
+    for r, path in reachable_regions(run.ret, run.state.heap):
+        if r.startswith("G:"):
+            hits.setdefault(r, path)
+    if hits:
+        for r, path in sorted(hits.items())[:4]:
+            report.violation("R-ALIAS", run.entry, f"{run.cls.name}.{run.entry.name}: the result holds the shared object {r[2:]}",
+                             {"reached_as": path, "why": "a module-/class-level mutable object inside a returned caption set is "
+                                                         "shared by every result of every call"}, clause)
+    else:
+        report.ok("R-ALIAS", run.entry, label, {"shared_objects_reachable_from_the_result": 0}, clause)
